@@ -172,11 +172,6 @@ def RoundtripStatement (lc : Libc) : Prop :=
       (parseExZ lc tok t).offset = t.length ∧ (parseExZ lc tok t).fault = none ∧ (parseExZ lc tok t).stuck = false ∧
       valEq p v = true ∧ serialize fmt flags p = .ok t
 
-theorem serialize_eq_child (flags : Nat) (v : JVal) (hc : (Fl.ofNat flags).color = false) :
-    serialize fmt flags v = serChild fmt (Fl.ofNat flags) 0 v := by
-  cases v <;> try rfl
-  simp [serialize, serChild, withColor, hc]
-
 /-- **roundtrip** as the corollary of `ser_is_doc` and C01 it is: `ParseValidHyp lc → RoundtripStatement`.
 (The proof needs nothing else: the document's nesting is the tree's, its integers fit 64 bits, its names
 are NUL-free, it denotes the tree, and what it denotes serializes to the same bytes.) -/
@@ -190,13 +185,12 @@ theorem roundtrip_of_parse_valid (lc : Libc) (hpv : ParseValidHyp lc) : Roundtri
     simp only [List.append_nil] at h1
     rw [h2] at h1; simpa [strip] using h1
   obtain ⟨hn, hfit, hknf⟩ := (shape_all fmt).1 v (Fl.ofNat flags) 0 d hok hd
-  have hnew : Tokener.new 32 0 = some { stack := [freshLevel], maxDepth := 32, pb := [], stPos := 0, isDouble := false,
-      ucs := 0, hs := 0, quote := 0, flags := 0 } := rfl
-  have hp := hpv 32 0 _ ⟨[], d, []⟩ hnew (Or.inl rfl) hdok (by rw [hn]; exact hnest) hfit hknf
+  obtain ⟨tok, hnew⟩ : ∃ tok, Tokener.new 32 0 = some tok := ⟨_, rfl⟩
+  have hp := hpv 32 0 tok ⟨[], d, []⟩ hnew (Or.inl rfl) hdok (by rw [hn]; exact hnest) hfit hknf
   have hxt : (⟨[], d, []⟩ : Rfc8259.Text).text = d.text := by simp [Rfc8259.Text.text, Ws.text]
   simp only [hxt] at hp
   obtain ⟨p1, p2, p3, p4, p5⟩ := hp
-  refine ⟨t, _, d.denote, by rw [serialize_eq_child fmt flags v hc]; exact ht, hnew, ?_, ?_, ?_, ?_, ?_, ?_, ?_⟩
+  refine ⟨t, tok, d.denote, by rw [serialize_eq_child fmt flags v hc]; exact ht, hnew, ?_, ?_, ?_, ?_, ?_, ?_, ?_⟩
   · rw [htext]; exact p1
   · rw [htext]; exact p2
   · rw [htext]; exact p3
